@@ -60,7 +60,7 @@ class Ctx:
     def harness(self, mode, timeout=3600, exe=None, env=None, **kw):
         """Run a harness mode; returns the parsed summary JSON."""
         out = os.path.join(self.work, 'sum-%s-%d.json' % (mode, len(os.listdir(self.work))))
-        cmd = [exe or self.vh, mode, '-out', out, '-seed', str(self.seed), '-tier', kw.pop('tier', None) or self.tier]
+        cmd = [exe or self.vh, mode, '-out', out, '-seed', str(kw.pop('seed', self.seed)), '-tier', kw.pop('tier', None) or self.tier]
         for k, v in kw.items():
             cmd += ['-' + k, str(v)]
         e = self.goenv()
